@@ -11,7 +11,7 @@ func init() {
 			Funcs: []FuncSpec{
 				{File: "pkg/op/auth_request.go", Name: "setFragment", Lean: "setFragment",
 					Params: []string{"(uri : AR.URL)", "(params : AR.Values)"}, Ret: RetVal, PlainUpdate: true, LoopStyle: "fold", RetType: "AR.Bytes",
-					Rename: map[string]string{"uri.String()": "(uri).String"}},
+					Rename: map[string]string{"uri.String()": "(uri).String", "url.PathUnescape()": "AR.PathUnescape"}},
 				{File: "pkg/op/auth_request.go", Name: "mergeQueryParams", Lean: "mergeQueryParams",
 					Params: []string{"(uri : AR.URL)", "(params : AR.Values)"}, Ret: RetVal, PlainUpdate: true, LoopStyle: "fold", RetType: "AR.Bytes",
 					Rename: map[string]string{"uri.String()": "(uri).String"}},
